@@ -1,6 +1,6 @@
 (* Line-oriented entry point of the executable model: run "cmd sexp" = answer line. *)
 From Coq Require Import String Ascii List Bool Arith.
-From Wrap Require Import Base.Str Base.ListX Syntax.Ast Syntax.Sexp Syntax.Codec Syntax.Print Inst.Model Inst.Proj.
+From Wrap Require Import Base.Str Base.ListX Syntax.Ast Syntax.Sexp Syntax.Codec Syntax.Print Inst.Model Inst.Proj Pybind.Items Pybind.Gen Pybind.Render.
 Import ListNotations.
 Open Scope string_scope.
 
@@ -13,7 +13,7 @@ Fixpoint split_cmd (s : string) (acc : string) : string * string :=
 Definition bit (s : string) (k : nat) : bool :=
   match String.get k s with Some c => is c "1"%char | None => false end.
 Definition d_quirks (s : string) : quirks :=
-  {| q_cap_all := bit s 0; q_scoped_substring := bit s 1; q_typedef_stale := bit s 2 |}.
+  {| q_cap_all := bit s 0; q_scoped_substring := bit s 1; q_typedef_stale := bit s 2; q_first_level_only := bit s 3 |}.
 
 Definition show_res {A} (f : A -> sexp) (r : res A) : string :=
   match r with
@@ -53,6 +53,26 @@ Definition run_proj (x : sexp) : string :=
   | _ => "badshape"
   end.
 
+Definition d_pquirks (s : string) : pquirks :=
+  {| q_ignored_enums := bit s 0; q_values_insert := bit s 1 |}.
+Definition d_cfg (x : sexp) : option cfg :=
+  match x with
+  | SList [t; i; b] =>
+    do t' <- d_list d_str t; do i' <- d_list d_str i; do b' <- d_bool b;
+    Some {| top := t'; ignore := i'; boost := b' |}
+  | _ => None
+  end.
+(* pybind (qbits cfg template module_name submodules? items) -> generated text *)
+Definition run_pybind (x : sexp) : string :=
+  match x with
+  | SList [Atom qs; cf; Atom tpl; Atom mname; subs; SList its] =>
+    match d_cfg cf, d_opt (d_list d_str) subs, sequence (map d_item its) with
+    | Some c, Some sm, Some l => "ok " ++ print (Atom (r_file (d_pquirks qs) c None tpl mname sm l))
+    | _, _, _ => "baddecode"
+    end
+  | _ => "badshape"
+  end.
+
 Definition run (line : string) : string :=
   let '(cmd, rest) := split_cmd line EmptyString in
   match read rest with
@@ -61,6 +81,7 @@ Definition run (line : string) : string :=
     if String.eqb cmd "inst" then run_inst x
     else if String.eqb cmd "instproj" then run_instproj x
     else if String.eqb cmd "proj" then run_proj x
+    else if String.eqb cmd "pybind" then run_pybind x
     else if String.eqb cmd "echo" then print x
     else "badcmd"
   end.
